@@ -9,7 +9,7 @@ from ..core import FAILED
 DECIDING = ["kind:random_unitary", "kind:random_density_matrix", "kind:random_psd_operator", "kind:random_orthonormal_basis", "kind:random_state_vector",
             "kind:random_povm", "kind:random_circulant_gram_matrix", "kind:random_states", "kind:random_ginibre", "hist:same-seed-same-object",
             "hist:different-seed-different-object", "hist:global-rng-untouched", "meas:pgm-is-povm", "meas:pbm-is-povm", "meas:pgm-between-opt^2-and-opt",
-            "meas:born-probabilities", "meas:post-states", "meas:rejects-incomplete"]
+            "meas:born-probabilities", "meas:post-states", "meas:rejects-incomplete", "meas:is_povm"]
 RULE = ("generators: dimensions 1..6, both is_real values, k_param over its whole range, list and scalar dimension arguments, seeds drawn at random; histories: random "
         "interleavings of seeded and unseeded calls with np.random.seed perturbations and foreign default_rng draws, logged and checked offline; measurements: spanning "
         "ensembles of 2..6 states (pure and mixed, any prior), Kraus / projective measurement sets; signature (monitor, function, dimension, options)")
@@ -283,6 +283,21 @@ def _run_pgm(ctx, spec, rng):
         pb = [np.asarray(m, dtype=complex) for m in pb]
         neg, comp, hdev = certs.povm_defect(pb, d)
         ctx.check("meas:pbm-is-povm", max(neg, comp, hdev) <= 1e-7, dev=max(neg, comp, hdev), tol=1e-7, sig=sig, nt=True, mech="pretty_bad_measurement:not-a-povm", detail={"d": d, "n": n, "defects": [neg, comp, hdev]})
+    # the library's own POVM predicate must agree with the model check on these operators and on perturbed ones
+    from toqito.measurement_props import is_povm
+
+    if pg is not None:
+        v = ctx.call(is_povm, [m.copy() for m in pg])
+        if v is not FAILED:
+            ctx.check("meas:is_povm", bool(v) is True, sig=("pgm", d), nt=True, mech="is_povm:rejects-valid-povm", detail={"d": d, "n": n})
+        v = ctx.call(is_povm, [1.05 * m for m in pg])
+        if v is not FAILED:
+            ctx.check("meas:is_povm", bool(v) is False, sig=("scaled", d), nt=True, mech="is_povm:accepts-incomplete-set", detail={"d": d, "n": n})
+        if len(pg) >= 2:
+            shift = 0.2 * np.eye(d)
+            v = ctx.call(is_povm, [pg[0] + shift + (ref.eigmax(pg[1]) + 0.1) * np.eye(d), pg[1] - shift - (ref.eigmax(pg[1]) + 0.1) * np.eye(d)] + [m.copy() for m in pg[2:]])
+            if v is not FAILED:
+                ctx.check("meas:is_povm", bool(v) is False, sig=("negative-element", d), nt=True, mech="is_povm:accepts-non-psd-element", detail={"d": d, "n": n})
     res = ctx.call(pretty_good_measurement, [x.copy() for x in inp], list(p * 1.1), expect=(ValueError,))
     if res is not FAILED:
         ctx.check("meas:pgm-is-povm", isinstance(res, ValueError), sig=("rejects-unnormalised-prior",), mech="pretty_good_measurement:accepts-unnormalised-prior", detail={})
